@@ -10,6 +10,7 @@ package main
 // (Inorder stopped after `stop` keys), afters = [[c, stop, keys seen]].
 
 import (
+	"math"
 	"math/rand"
 
 	"github.com/creachadair/mds/stree"
@@ -27,25 +28,37 @@ type c01state struct {
 	beta  map[int]int
 	rev   map[int]bool
 	cmps  int
-	mag   bool // comparator returns differences, not just -1/0/1
+	mag   int // comparator result style: 0 = -1/0/1, 1 = 5*diff, 2 = diff<<32, 3 = diff<<31, 4 = MinInt/MaxInt
 }
 
 func (st *c01state) cmp(rev bool) func(a, b sk) int {
 	return func(a, b sk) int {
 		st.cmps++
-		d := 0
-		if a.C < b.C {
-			d = -1
-		} else if a.C > b.C {
-			d = 1
-		}
-		if st.mag {
-			d = 5 * (a.C - b.C) // any magnitude is a legal comparator result
-		}
+		diff := a.C - b.C
 		if rev {
-			return -d
+			diff = -diff
 		}
-		return d
+		switch st.mag { // any magnitude is a legal comparator result
+		case 1:
+			return 5 * diff
+		case 2:
+			return diff << 32 // low 32 bits all zero
+		case 3:
+			return diff << 31 // bit 31 set for odd differences
+		case 4:
+			if diff < 0 {
+				return math.MinInt
+			} else if diff > 0 {
+				return math.MaxInt
+			}
+			return 0
+		}
+		if diff < 0 {
+			return -1
+		} else if diff > 0 {
+			return 1
+		}
+		return 0
 	}
 }
 
@@ -101,7 +114,7 @@ func c01exec(c *Ctx, st *c01state, op Op, rng *rand.Rand, light bool) Ev {
 				kk[i] = kj(x)
 			}
 			ev["keys"] = kk
-			st.mag = getb(op, "mag")
+			st.mag = geti(op, "mag")
 			ev["mag"] = st.mag
 			st.trees = map[int]*stree.Tree[sk]{}
 			st.beta = map[int]int{1: beta}
@@ -221,6 +234,10 @@ func c01exec(c *Ctx, st *c01state, op Op, rng *rand.Rand, light bool) Ev {
 }
 
 func replayC01(c *Ctx, h *Hist, ops []Op) {
+	if len(ops) > 0 && gets(ops[0], "keytype") == "slice" {
+		c01sliceRun(h, ops)
+		return
+	}
 	st := &c01state{}
 	for i, op := range ops {
 		if i == 0 && gets(op, "op") != "new" {
@@ -273,7 +290,7 @@ func c01gen(c *Ctx, label string, nh int, maxKeys int) {
 				}
 			}
 			do := func(op Op) { h.Emit(c01exec(c, st, toAnyOp(op), rng, false)) }
-			do(Op{"op": "new", "beta": beta, "rev": rev, "keys": keys, "mag": rng.Intn(3) == 0})
+			do(Op{"op": "new", "beta": beta, "rev": rev, "keys": keys, "mag": []int{0, 0, 1, 2, 3, 4}[rng.Intn(6)]})
 			nops := 30 + rng.Intn(c.Pick(90, 200))
 			ntrees := 1
 			for j := 0; j < nops; j++ {
@@ -409,6 +426,110 @@ func runC01(c *Ctx) {
 		replayPathC01(c, c.NewHist("tlc-path"), p)
 	}
 	c01gen(c, "c01", c.Pick(192, 6000), 0)
+	c01sliceKeys(c)
+	c01deepClone(c)
+}
+
+// c01deepClone: a degenerate tree (beta = 1000) hundreds (thorough: thousands) of
+// levels deep with left children near the bottom, cloned, then both sides changed there.
+func c01deepClone(c *Ctx) {
+	for i := 0; i < c.Pick(2, 4); i++ {
+		rng := c.Rng("c01-deep", i)
+		h := c.NewHist("deep-clone")
+		st := &c01state{}
+		depth := 300 + rng.Intn(200)
+		if c.Thorough() && i >= 2 {
+			depth = 4200 + rng.Intn(600)
+		}
+		do := func(op Op, light bool) { h.Emit(c01exec(c, st, toAnyOp(op), nil, light)) }
+		do(Op{"op": "new", "beta": 1000, "rev": false, "keys": [][2]int{}}, true)
+		tag := 0
+		add := func(t, cl int, light bool) {
+			tag++
+			do(Op{"op": "add", "t": t, "k": [2]int{cl, tag}, "full": 0}, light)
+		}
+		for j := 0; j < depth; j++ {
+			add(1, 10*j, true)
+		}
+		base := 10 * depth
+		for _, d := range []int{50, 20, 80, 10, 30, 70, 90} { // bushy bottom with left children
+			add(1, base+d, true)
+		}
+		do(Op{"op": "clone", "t": 1, "t2": 2}, true)
+		for _, d := range []int{15, 25, 75} {
+			add(1, base+d, true)
+		}
+		for _, d := range []int{5, 35, 85} {
+			add(2, base+d, true)
+		}
+		do(Op{"op": "remove", "t": 2, "k": [2]int{base + 20, 0}, "full": 0}, true)
+		do(Op{"op": "replace", "t": 1, "k": [2]int{base + 30, 999}, "full": 0}, true)
+		// full look at both trees
+		do(Op{"op": "add", "t": 1, "k": [2]int{base + 30, 1000}, "full": 1, "stop": 3}, false)
+		do(Op{"op": "add", "t": 2, "k": [2]int{base + 30, 1001}, "full": 1, "stop": 3}, false)
+	}
+}
+
+// c01sliceKeys: the same tree over a key type that is not comparable with ==
+// (a slice), and over float keys where -0 and +0 are equivalent under the
+// comparator but distinguishable: the stored representative must be the latest.
+func c01sliceKeys(c *Ctx) {
+	for i := 0; i < c.Pick(40, 800); i++ {
+		rng := c.Rng("c01-slicekeys", i)
+		beta := c01betas[rng.Intn(len(c01betas))]
+		ops := []Op{{"op": "new", "beta": beta, "k": []any{0.0, 0.0}}}
+		for j := 0; j < 40; j++ {
+			ops = append(ops, Op{"op": []string{"add", "replace", "replace", "remove"}[rng.Intn(4)], "k": []any{float64(rng.Intn(8)), float64(j + 1)}})
+		}
+		c.genGuard(func() { c01sliceRun(c.NewHist("slice-keys"), ops) })
+	}
+}
+
+func c01sliceRun(h *Hist, ops []Op) {
+	beta := geti(ops[0], "beta")
+	t := stree.New(beta, func(a, b []int) int { return a[0] - b[0] })
+	emit := func(name string, k [2]int, res bool, pan string) {
+		ino := [][2]int{}
+		t.Inorder(func(x []int) bool { ino = append(ino, [2]int{x[0], x[1]}); return true })
+		gl := [][5]int{}
+		for _, cc := range []int{k[0], k[0] + 1} {
+			if rk, ok := t.Get([]int{cc, -7}); ok {
+				gl = append(gl, [5]int{cc, 1, rk[0], rk[1], 0})
+			} else {
+				gl = append(gl, [5]int{cc, 0, 0, 0, 0})
+			}
+		}
+		mn, mx := [2]int{0, 0}, [2]int{0, 0}
+		if len(ino) > 0 {
+			mn, mx = ino[0], ino[len(ino)-1]
+		}
+		h.Emit(Ev{"op": name, "t": 1, "t2": 0, "beta": beta, "rev": false, "k": k, "keys": [][2]int{}, "res": res, "len": t.Len(),
+			"empty": t.IsEmpty(), "height": -2, "mag": 1, "full": 1, "ino": ino, "min": mn, "max": mx, "stop": 0, "pre": ino,
+			"gets": gl, "afters": []any{}, "panic": pan, "keytype": "slice"})
+	}
+	emit("new", [2]int{0, 0}, true, "")
+	for _, op := range ops[1:] {
+		kk := keyOf(op["k"])
+		k := [2]int{kk.C, kk.G}
+		name := gets(op, "op")
+		ev := Ev{}
+		var res bool
+		guard(ev, func() {
+			switch name {
+			case "add":
+				res = t.Add([]int{k[0], k[1]})
+			case "replace":
+				res = t.Replace([]int{k[0], k[1]})
+			default:
+				res = t.Remove([]int{k[0], k[1]})
+			}
+		})
+		pan, _ := ev["panic"].(string)
+		emit(name, k, res, pan)
+		if pan != "" {
+			return
+		}
+	}
 }
 
 // C02: the same events; more weight on adversarial insertion orders with
@@ -418,6 +539,23 @@ func runC02(c *Ctx) {
 		replayPathC01(c, c.NewHist("tlc-path"), p)
 	}
 	c01gen(c, "c02", c.Pick(96, 3000), 0)
+	// thousands of keys in adversarial order at strict balance factors
+	for i := 0; i < c.Pick(2, 8); i++ {
+		rng := c.Rng("c02-long", i)
+		h := c.NewHist("adv-long")
+		st := &c01state{}
+		beta := []int{0, 0, 100, 250}[rng.Intn(4)]
+		n := 2600 + rng.Intn(c.Pick(700, 4000))
+		do := func(op Op) { h.Emit(c01exec(c, st, toAnyOp(op), rng, true)) }
+		do(Op{"op": "new", "beta": beta, "rev": false, "keys": [][2]int{}})
+		for j := 0; j < n; j++ {
+			cl := j
+			if i%2 == 1 {
+				cl = 100000 - j
+			}
+			do(Op{"op": "add", "t": 1, "k": [2]int{cl, j}, "full": 0})
+		}
+	}
 	pats := []string{"ascending", "descending", "zigzag", "asc-remove", "inside-out", "random"}
 	nh := c.Pick(24, 240)
 	for i := 0; i < nh; i++ {
